@@ -195,6 +195,8 @@ class Solver:
                 if a["kind"] in ("write", "ref") or a.get("unknown"):
                     if a["static"] in self.write_once_statics:
                         continue
+                    if a.get("feeds_only_atomic"):
+                        continue         # the atomic load / store it feeds is listed on its own
                     if a["kind"] == "ref" and not a.get("static_mut") and a["static"] not in self._search_reads:
                         continue
                     if a["static"] in self._search_reads:
